@@ -358,7 +358,37 @@ def selftest():
         raise core.BrokenCheck("names_in self-test")
 
 
+def replay(path):
+    """./vcheck C13 --replay <file>: rebuild the stored program under all renamings; exit 1 if it still fails"""
+    import json
+    rec = json.load(open(path))
+    script = rec["replay"].get("script")
+    core.use_repo()
+    from mc.flo import real, addr
+    p = core.Part()
+    hit = None
+    for case in cases("thorough"):
+        cname, cfg, placement, slot, form = case
+        line = slot[1].replace("{REF}", form[1].replace("{SELF}", CTX[placement]["SELF"]))
+        if program(placement, cfg, line) == script:
+            hit = case
+            break
+    if hit is None:
+        print("replay: no program of the family has this script")
+        return 2
+    check_case(real, addr, p, hit)
+    print(script)
+    for g, ex, what, rep in p.violations:
+        print("REPRODUCED %s|%s\n  %s" % (g, ex, what))
+    if not p.violations:
+        print("not reproduced: references resolve through the written names and follow every renaming")
+    return 1 if p.violations else 0
+
+
 def run():
+    import os
+    if os.environ.get("VERIF_REPLAY"):
+        return replay(os.environ["VERIF_REPLAY"])
     selftest()
     ck = core.Check("C13", "exploration", META["technique"])
     cs = cases(core.TIER)
